@@ -22,3 +22,15 @@ func verifStartWindow(w *WorkerPool) {
 		hook(w)
 	}
 }
+
+// VerifHasWorkHook, when set, is called by hasWork between its two reads (isRunning, then the pending counter); the
+// gap always evaluates to false (verification builds only).
+var VerifHasWorkHook func(w *WorkerPool)
+
+func verifHasWorkGap(w *WorkerPool) bool {
+	if hook := VerifHasWorkHook; hook != nil {
+		hook(w)
+	}
+
+	return false
+}
